@@ -170,7 +170,7 @@ def evaluate_cases(mod, cases, pool):
 
 def shrink(mod, case, fail, pool, budget_s=120):
     """greedy delta debugging with the property's own candidate generator; keeps the same failing clause"""
-    if not hasattr(mod, 'shrink_candidates'):
+    if not hasattr(mod, 'shrink_candidates') or os.environ.get('VERIF_NO_SHRINK') == '1':
         return case, fail
     t0 = time.time()
     improved = True
